@@ -1,6 +1,8 @@
 package sched
 
 import (
+	"strings"
+
 	"pgregory.net/rapid"
 )
 
@@ -10,10 +12,11 @@ const (
 	RunLength
 	HoldAtBlock
 	Priority
+	LateSet
 	NumStrategies
 )
 
-var StrategyNames = [...]string{"uniform", "run-length", "hold-at-block", "priority"}
+var StrategyNames = [...]string{"uniform", "run-length", "hold-at-block", "priority", "late-set"}
 
 // blockingKinds are yield kinds whose next operation may park the task.
 var blockingKinds = map[string]bool{"select": true, "recv": true, "wait": true, "send": true}
@@ -23,10 +26,13 @@ type RapidChooser struct {
 	T        *rapid.T
 	Strategy int
 
-	cur     *Task // run-length
-	left    int
-	prio    map[int]int // priority
-	changes map[int]bool
+	cur       *Task // run-length
+	left      int
+	prio      map[int]int // priority
+	changes   map[int]bool
+	late      map[int]bool // late-set: tasks that run only when nobody else can
+	lateClass map[string]bool
+	perTask   bool
 }
 
 // NewRapidChooser draws the strategy.
@@ -61,12 +67,56 @@ func (c *RapidChooser) Pick(s *Session, enabled []*Task) *Task {
 		// while anybody else can run; release them in a drawn order
 		var free []*Task
 		for _, t := range enabled {
-			if !blockingKinds[t.Kind()] {
+			if !aboutToBlock(t) {
 				free = append(free, t)
 			}
 		}
 		if len(free) > 0 {
 			return c.pickUniform(free)
+		}
+		return c.pickUniform(enabled)
+	case LateSet:
+		// a drawn subset of the tasks is starved: everybody else first runs up
+		// to the point where it would block (hold-at-block), only then do the
+		// late tasks run (to completion, uniformly), then the held ones are
+		// released. "All readers are between their emptiness check and the
+		// select, then every write and the Close happen, then the readers go
+		// on" is one draw of this strategy.
+		if c.late == nil {
+			c.late = map[int]bool{}
+			c.lateClass = map[string]bool{}
+			c.perTask = rapid.IntRange(0, 9).Draw(c.T, "latePerTask") < 3
+		}
+		for _, t := range enabled {
+			if _, ok := c.late[t.ID]; !ok {
+				// usually a whole class of tasks (readers, writers, closer ...:
+				// the task name without its trailing digits) is late together
+				cl := strings.TrimRight(t.Name, "0123456789.")
+				if _, seen := c.lateClass[cl]; !seen {
+					c.lateClass[cl] = rapid.Bool().Draw(c.T, "lateClass")
+				}
+				if c.perTask {
+					c.late[t.ID] = rapid.IntRange(0, 9).Draw(c.T, "late") < 4
+				} else {
+					c.late[t.ID] = c.lateClass[cl]
+				}
+			}
+		}
+		var early, lateFree []*Task
+		for _, t := range enabled {
+			switch {
+			case aboutToBlock(t):
+			case c.late[t.ID]:
+				lateFree = append(lateFree, t)
+			default:
+				early = append(early, t)
+			}
+		}
+		if len(early) > 0 {
+			return c.pickUniform(early)
+		}
+		if len(lateFree) > 0 {
+			return c.pickUniform(lateFree)
 		}
 		return c.pickUniform(enabled)
 	case Priority:
@@ -117,4 +167,34 @@ func (c *ScriptChooser) Pick(s *Session, enabled []*Task) *Task {
 		}
 	}
 	return enabled[0]
+}
+
+// aboutToBlock: the task's next operation may park it -- it is at the yield
+// of a blocking kind, or it has passed such a yield and is now inside a call
+// made while the operands of that select/receive are evaluated (a yield of
+// another file, e.g. readDeadline.Done() inside Buffer.Read's select).
+func aboutToBlock(t *Task) bool {
+	if blockingKinds[t.Kind()] {
+		return true
+	}
+	p := t.Passed()
+	if len(p) == 0 {
+		return false
+	}
+	last := p[len(p)-1]
+	k := last
+	if i := strings.LastIndexByte(last, ':'); i >= 0 {
+		k = last[i+1:]
+	}
+	if !blockingKinds[k] {
+		return false
+	}
+	return fileOf(last) != fileOf(t.Label())
+}
+
+func fileOf(label string) string {
+	if i := strings.IndexByte(label, ':'); i >= 0 {
+		return label[:i]
+	}
+	return label
 }
